@@ -14,12 +14,14 @@
       searches find the evicted element and a valid insertion point, the in-place shift (`copy_within` + store) is
       "erase there, insert here", so after every stream the slice is THE ascending sort of the last `n` values and
       `mid` returns its middle element(s) (`C04_smm`); no step can panic (`C04_smm_step`).
-  HighestLowestDelta (and the median inside MedianAbsDev) are modelled and compared with the from-scratch selections
-  of `YataModel/Spec.lean` by the correspondence run only (exact comparison, small alphabets with ±0).
+    * HighestLowestDelta keeps a maximal and a minimal element of the window on every stream (`C04_hldelta`).
+  Every C04 method has its theorem (MedianAbsDev's median: C02); independently the run compares all of them exactly with the
+  model and with the from-scratch selections of `YataModel/Spec.lean` (small alphabets with ±0).
 -/
 import YataProofs.Selection
 import YataProofs.SelectionIndex
 import YataProofs.SMM
+import YataProofs.HLDelta
 import YataProofs.Numeric.Common
 import Mathlib.Algebra.Order.Ring.Rat
 namespace Yata.C04
@@ -109,6 +111,32 @@ theorem C04_newest_max_unique {i i' : Nat} {m m' : β} {r : List β} (h : Newest
 theorem C04_newest_min_unique {i i' : Nat} {m m' : β} {r : List β} (h : NewestMinAt i m r) (h' : NewestMinAt i' m' r) :
     i = i' := h.unique h'
 
+/-- HighestLowestDelta keeps a maximal and a minimal element of the last `n` values, on every stream (the output is
+    their difference, formed by the caller) -/
+theorem C04_hldelta {n : Nat} (v : β) (hn0 : 0 < n) (hn : n ≤ P - 1) (xs : List β) :
+    ∃ s0 s', HighestLowestDelta.new P n v = .ok s0 ∧ xs.foldlM (fun s x => HighestLowestDelta.step s x) s0 = .ok s' ∧
+      IsMaxOf s'.highest (lastN n (history n v xs)) ∧ IsMinOf s'.lowest (lastN n (history n v xs)) := by
+  obtain ⟨s0, hnew, hinv0, htl0⟩ := HighestLowestDelta.new_spec (P := P) v hn0 hn
+  have key : ∀ (xs : List β) (h : List β) (s : HighestLowestDelta β), HighestLowestDelta.Inv P s →
+      Window.toList s.window = lastN n (history n v h) → n ≤ (history n v h).length →
+      ∃ s', xs.foldlM (fun s x => HighestLowestDelta.step s x) s = .ok s' ∧ HighestLowestDelta.Inv P s' ∧
+        Window.toList s'.window = lastN n (history n v (h ++ xs)) := by
+    intro xs
+    induction xs with
+    | nil => intro h s hi ht _; exact ⟨s, rfl, hi, by simpa using ht⟩
+    | cons x t ih =>
+      intro h s hi ht hl
+      obtain ⟨s1, hst, hi1, ht1⟩ := HighestLowestDelta.step_spec x hi
+      have e : Window.toList s1.window = lastN n (history n v (h ++ [x])) := by
+        rw [ht1, ht, history_snoc, lastN_snoc x hn0 hl]
+      obtain ⟨s', hf, hi', ht'⟩ := ih (h ++ [x]) s1 hi1 e (by rw [history_snoc]; simp; omega)
+      refine ⟨s', ?_, hi', by simpa [List.append_assoc] using ht'⟩
+      simp only [List.foldlM_cons, hst, bind, Except.bind]
+      exact hf
+  obtain ⟨s', hf, hi', ht'⟩ := key xs [] s0 hinv0 (by rw [htl0, lastN_history_nil]) (by simp [history])
+  simp only [List.nil_append] at ht'
+  exact ⟨s0, s', hnew, hf, by rw [← ht']; exact hi'.isMax, by rw [← ht']; exact hi'.isMin⟩
+
 section SMMSection
 variable {γ : Type} [LinearOrder γ] [TotalCmp γ] [TotalLike γ]
 
@@ -166,3 +194,4 @@ end Yata.C04
 #print axioms Yata.C04.C04_newest_min_unique
 #print axioms Yata.C04.C04_smm_step
 #print axioms Yata.C04.C04_smm
+#print axioms Yata.C04.C04_hldelta
